@@ -38,3 +38,15 @@ func verifAuthOptRoundTrip(authOpt *slayers.EndToEndOption, spi uint32, algo uin
 	PreparePacketAuthOpt(authOpt, spi, algo)
 	return PacketAuthOptMetadata(authOpt)
 }
+
+// DRKey retrieval and derivation (daemon RPC, key cache): not under contract, arbitrary result or error.
+//@ func (*Fetcher).FetchHostASKey
+//@   trusted
+//@   allocates
+//@ func (*Fetcher).FetchHostHostKey
+//@   trusted
+//@   allocates
+//@ func DeriveHostHostKey
+//@   trusted
+//@ func UseMockKeys
+//@   trusted
